@@ -98,9 +98,12 @@ Section C02U.
     mst g k = Some (MApproved h) ->
     mst (ugrun H verify g ops) k = Some (MApproved h) \/ mst (ugrun H verify g ops) k = Some MExecuted.
   Proof. exact (ugrun_approved_stays H verify). Qed.
+  Theorem c02_at_most_once_with_upgrades : forall g ops k, (ucount_true H verify g ops k <= 1)%nat.
+  Proof. exact (uvalidate_at_most_once H verify). Qed.
 End C02U.
 Print Assumptions c02_executed_final_with_upgrades.
 Print Assumptions c02_approved_keeps_hash_with_upgrades.
+Print Assumptions c02_at_most_once_with_upgrades.
 
 Example pin_executed_marker : gen_gw_message_executed = render_mstate MExecuted := eq_refl.
 Example pin_states : gen_gw_message_states = ["NonExistent"; "Approved"; "Executed"]%string := eq_refl.
